@@ -542,6 +542,193 @@ fn gen_pair(rng: &mut Rng, cfg: &str) -> (B, B) {
     }
 }
 
+
+// ---------------------------------------------------------------------------------------------
+// API sequences (C08: the value must be a function of the box's CURRENT fields): a box is prepared with
+// gen_vertices() and then mutated through the public API / public fields, cloned, rotated ...; every observable
+// is evaluated on the resulting ("dirty") box and on a FRESH box built from the dirty box's current field values.
+#[derive(Clone, Copy, Debug)]
+enum Op {
+    Gen,
+    RotMut(f32),
+    Rotate(f32),
+    SetXc(f32),
+    SetYc(f32),
+    SetAsp(f32),
+    SetH(f32),
+    AngleNone,
+    AngleSome(f32),
+    CloneIt,
+    Conf,
+}
+
+fn op_txt(o: &Op) -> String {
+    match o {
+        Op::Gen => "G".into(),
+        Op::RotMut(a) => format!("R:{}", f32b(*a)),
+        Op::Rotate(a) => format!("r:{}", f32b(*a)),
+        Op::SetXc(v) => format!("X:{}", f32b(*v)),
+        Op::SetYc(v) => format!("Y:{}", f32b(*v)),
+        Op::SetAsp(v) => format!("A:{}", f32b(*v)),
+        Op::SetH(v) => format!("H:{}", f32b(*v)),
+        Op::AngleNone => "N".into(),
+        Op::AngleSome(a) => format!("a:{}", f32b(*a)),
+        Op::CloneIt => "C".into(),
+        Op::Conf => "S".into(),
+    }
+}
+
+fn op_parse(s: &str) -> Op {
+    let v = |x: &str| f32::from_bits(x[2..].parse::<u32>().unwrap());
+    match &s[..1] {
+        "G" => Op::Gen,
+        "R" => Op::RotMut(v(s)),
+        "r" => Op::Rotate(v(s)),
+        "X" => Op::SetXc(v(s)),
+        "Y" => Op::SetYc(v(s)),
+        "A" => Op::SetAsp(v(s)),
+        "H" => Op::SetH(v(s)),
+        "N" => Op::AngleNone,
+        "a" => Op::AngleSome(v(s)),
+        "C" => Op::CloneIt,
+        _ => Op::Conf,
+    }
+}
+
+fn ops_txt(ops: &[Op]) -> String {
+    if ops.is_empty() {
+        "-".into()
+    } else {
+        ops.iter().map(op_txt).collect::<Vec<_>>().join(",")
+    }
+}
+
+fn ops_parse(s: &str) -> Vec<Op> {
+    if s == "-" {
+        vec![]
+    } else {
+        s.split(',').map(op_parse).collect()
+    }
+}
+
+fn apply_ops(start: &B, ops: &[Op]) -> Universal2DBox {
+    let mut x = start.ub();
+    for o in ops {
+        match o {
+            Op::Gen => {
+                x.gen_vertices();
+            }
+            Op::RotMut(a) => x.rotate_mut(*a),
+            Op::Rotate(a) => x = x.rotate(*a),
+            Op::SetXc(v) => x.xc = *v,
+            Op::SetYc(v) => x.yc = *v,
+            Op::SetAsp(v) => x.aspect = *v,
+            Op::SetH(v) => x.height = *v,
+            Op::AngleNone => x.angle = None,
+            Op::AngleSome(a) => x.angle = Some(*a),
+            Op::CloneIt => x = x.clone(),
+            Op::Conf => x.set_confidence(0.5),
+        }
+    }
+    x
+}
+
+fn fresh_of(x: &Universal2DBox) -> B {
+    B { xc: x.xc, yc: x.yc, angle: x.angle, aspect: x.aspect, h: x.height }
+}
+
+/// every observable of the pair, as one canonical string; `mk` builds the two boxes anew for every call that
+/// consumes or could modify them
+fn observe(mk: &dyn Fn() -> (Universal2DBox, Universal2DBox)) -> String {
+    let mut out = vec![];
+    let (a, b) = mk();
+    out.push(format!("inter={}", opt_f64(guarded(|| Universal2DBox::intersection(&a, &b)))));
+    out.push(format!("inter_ba={}", opt_f64(guarded(|| Universal2DBox::intersection(&b, &a)))));
+    out.push(format!("iou={}", opt_f32(guarded(|| Universal2DBox::calculate_metric_object(&Some(&a), &Some(&b))))));
+    out.push(format!("iou_ba={}", opt_f32(guarded(|| Universal2DBox::calculate_metric_object(&Some(&b), &Some(&a))))));
+    out.push(format!("iou_self={}", opt_f32(guarded(|| Universal2DBox::calculate_metric_object(&Some(&a), &Some(&a))))));
+    out.push(format!("tf={}", opt_bool(guarded(|| Universal2DBox::too_far(&a, &b)))));
+    out.push(format!("verts={}", coords(&a.get_vertices())));
+    let (va, vb) = (VisualObservationAttributes::new(1.0, a.clone()), VisualObservationAttributes::new(1.0, b.clone()));
+    out.push(format!("iouv={}", opt_f32(guarded(|| VisualObservationAttributes::calculate_metric_object(&Some(&va), &Some(&vb))))));
+    let (ca, cb) = (a.clone(), b.clone());
+    out.push(format!(
+        "clipc={}",
+        match guarded(move || ca.sutherland_hodgman_clip(cb)) {
+            None => "P".to_string(),
+            Some(p) => coords(&p),
+        }
+    ));
+    // C15: own-area shares of the pair
+    let shares = guarded(|| {
+        let refs = [&a, &b];
+        let own = exclusively_owned_areas(&refs);
+        exclusively_owned_areas_normalized_shares(&refs, own.as_ref())
+    });
+    out.push(format!(
+        "own={}",
+        match shares {
+            None => "P".to_string(),
+            Some(v) => v.iter().map(|x| f32b(*x)).collect::<Vec<_>>().join(":"),
+        }
+    ));
+    // the method called on the boxes themselves (moved, not cloned): reported separately
+    let (ma, mb) = mk();
+    out.push(format!(
+        "clipmv={}",
+        match guarded(move || ma.sutherland_hodgman_clip(mb)) {
+            None => "P".to_string(),
+            Some(p) => coords(&p),
+        }
+    ));
+    out.join(";")
+}
+
+fn eval_seq(k: usize, a: &B, opsa: &[Op], b: &B, opsb: &[Op]) {
+    let da = apply_ops(a, opsa);
+    let db = apply_ops(b, opsb);
+    let (fa, fb) = (fresh_of(&da), fresh_of(&db));
+    let dirty = observe(&|| (apply_ops(a, opsa), apply_ops(b, opsb)));
+    let fresh = observe(&|| (fa.ub(), fb.ub()));
+    println!(
+        "seq {} a={} opsa={} b={} opsb={} cura={} curb={} D={} F={}",
+        k,
+        a.txt(),
+        ops_txt(opsa),
+        b.txt(),
+        ops_txt(opsb),
+        fa.txt(),
+        fb.txt(),
+        dirty,
+        fresh
+    );
+}
+
+fn gen_ops(rng: &mut Rng, start: &B) -> Vec<Op> {
+    let mut ops = vec![];
+    let n = 1 + rng.below(5) as usize;
+    if rng.chance(3, 4) {
+        ops.push(Op::Gen);
+    }
+    for _ in 0..n {
+        let o = match rng.below(12) {
+            0 => Op::Gen,
+            1 | 2 => Op::RotMut(quant((rng.unit_f64() - 0.5) * 6.0, 8)),
+            3 => Op::Rotate(quant((rng.unit_f64() - 0.5) * 6.0, 8)),
+            4 => Op::SetXc(start.xc + rng.range(-40, 40) as f32 * 0.25 * start.h.max(1.0)),
+            5 => Op::SetYc(start.yc + rng.range(-40, 40) as f32 * 0.25 * start.h.max(1.0)),
+            6 => Op::SetAsp(start.aspect * *rng.pick(&[0.25f32, 0.5, 2.0, 3.0])),
+            7 => Op::SetH(start.h * *rng.pick(&[0.25f32, 0.5, 2.0, 3.0])),
+            8 => Op::AngleNone,
+            9 => Op::AngleSome(quant((rng.unit_f64() - 0.5) * 6.0, 8)),
+            10 => Op::CloneIt,
+            _ => Op::Conf,
+        };
+        ops.push(o);
+    }
+    ops
+}
+
 const PAIR_CFGS: [(&str, u64); 12] = [
     ("general", 20),
     ("rigid", 14),
@@ -876,6 +1063,42 @@ fn main() {
                 k += 1;
             }
         }
+        "seqs" => {
+            // corpus: the two demonstrations of a stale vertex cache (box moved / re-oriented after gen_vertices)
+            let mut k = 0usize;
+            let c0 = B { xc: 0.0, yc: 0.0, angle: Some(0.3), aspect: 2.0, h: 2.0 };
+            eval_seq(k, &c0, &[Op::Gen, Op::SetXc(100.0), Op::SetYc(50.0)], &c0, &[]);
+            k += 1;
+            let c1 = B { xc: 10.0, yc: 10.0, angle: Some(0.0), aspect: 8.0, h: 1.0 };
+            let up = B { xc: 10.0, yc: 13.0, angle: Some(0.0), aspect: 1.0, h: 1.0 };
+            eval_seq(k, &c1, &[Op::Gen, Op::RotMut(PI / 2.0)], &up, &[]);
+            k += 1;
+            for _ in 0..a.n {
+                let mut x = moderate_box(&mut rng);
+                if x.angle.is_none() || rng.chance(1, 2) {
+                    x.angle = Some(quant((rng.unit_f64() - 0.5) * 6.0, 8));
+                }
+                let opsa = gen_ops(&mut rng, &x);
+                // the partner is placed near the FINAL geometry of the first box
+                let fx = fresh_of(&apply_ops(&x, &opsa));
+                let mut y = moderate_box(&mut rng);
+                y.h = (fx.h * *rng.pick(&[0.5f32, 1.0, 1.5])).max(0.25);
+                let d = rng.unit_f64() * 0.6 * (fx.radius() + y.radius());
+                let dir = rng.unit_f64() * 2.0 * std::f64::consts::PI;
+                y.xc = quant(fx.xc as f64 + d * dir.cos(), 6);
+                y.yc = quant(fx.yc as f64 + d * dir.sin(), 6);
+                if y.angle.is_none() {
+                    y.angle = Some(quant((rng.unit_f64() - 0.5) * 6.0, 8));
+                }
+                let opsb = if rng.chance(1, 3) {
+                    vec![Op::Gen, Op::RotMut(quant((rng.unit_f64() - 0.5) * 6.0, 8)), *rng.pick(&[Op::CloneIt, Op::Conf, Op::Gen])]
+                } else {
+                    vec![]
+                };
+                eval_seq(k, &x, &opsa, &y, &opsb);
+                k += 1;
+            }
+        }
         "sets" => {
             let only: Option<String> = a.rest.iter().position(|x| x == "--cfg").map(|i| a.rest[i + 1].clone());
             let mut k = 0usize;
@@ -922,6 +1145,11 @@ fn main() {
                         let y = B::parse(get("b=").unwrap());
                         eval_pair(k, cfg, &x, &y, get("mt=").map(two), get("mr=").map(two));
                     }
+                    "seq" => {
+                        let x = B::parse(get("a=").unwrap());
+                        let y = B::parse(get("b=").unwrap());
+                        eval_seq(k, &x, &ops_parse(get("opsa=").unwrap_or("-")), &y, &ops_parse(get("opsb=").unwrap_or("-")));
+                    }
                     "set" => {
                         let cfg = get("cfg=").unwrap_or("replay");
                         let v: Vec<B> = get("boxes=").unwrap().split(';').map(B::parse).collect();
@@ -933,7 +1161,7 @@ fn main() {
             }
         }
         _ => {
-            eprintln!("usage: geom pairs|sets --seed S --n N [--cfg NAME] | eval --file F");
+            eprintln!("usage: geom pairs|sets|seqs --seed S --n N [--cfg NAME] | eval --file F");
             std::process::exit(2);
         }
     }
